@@ -147,6 +147,10 @@ def _seeded_job(args):
         new = [k for k in res['keys'] if k not in base_keys]
         if res['error'] or res['floor']:
             return {'seed': os.path.basename(sdir), 'status': 'analysis-error', 'detail': res['error'] or res['floor']}
+        meta = json.load(open(os.path.join(sdir, 'meta.json')))
+        if meta.get('expect') == 'silent':
+            # an edit that stopped breaking the property after a repair in /repo: the check must NOT fire on it
+            return {'seed': os.path.basename(sdir), 'status': 'silent-as-expected' if not new else 'FALSE-ALARM', 'finding': new[:2]}
         return {'seed': os.path.basename(sdir), 'status': 'detected' if new else 'MISSED', 'finding': new[:2]}
     finally:
         shutil.rmtree(d, ignore_errors=True)
@@ -241,7 +245,7 @@ def run_for(pid, seed=0, repo=None, workers=None, variants=('unparse', 'unparse+
         'mutants_skipped': [(r['name'], r.get('why')) for r in skipped],
         'benign_total': len(benign), 'benign_silent': sum(1 for b in benign if b['silent']),
         'benign_details': benign,
-        'seeded_total': len(fs), 'seeded_detected': sum(1 for x in fs if x['status'] == 'detected'), 'seeded_details': fs,
+        'seeded_total': len(fs), 'seeded_detected': sum(1 for x in fs if x['status'] in ('detected', 'silent-as-expected')), 'seeded_details': fs,
         'mutant_details': results,
     }
     print('selftest %s: %d/%d mutants killed, %d survived %s, %d skipped; benign variants silent %d/%d'
